@@ -1,6 +1,6 @@
 #!/bin/sh
 # run every check once on the current tree; usage: tools/runall.sh [quick|thorough]
-cd /verif
+cd "$(dirname "$0")/.." && mkdir -p work
 tier=${1:-quick}
 for i in 01 02 03 04 05 06 07 08 09 10 11 12 13 14 15 16 17 18 19 20; do
   s=$(date +%s)
